@@ -87,6 +87,26 @@ def exK2 : Prog :=
     top := [⟨"newG G0 A", .newG 0 (some .A)⟩, ⟨"connfn C0 G0 fn:1", .connfn 0 0 (.fn 1) false⟩,
             ⟨"emit G0 1 sum", .emit 0 1 .sum false⟩] }
 
+/-- functor-owned signal objects (`ownG:`): an emission of an existing empty list first (the two configurations
+    allocate different ids afterwards, so the owner ids differ), two lists owned by functors held in `G1`;
+    `delG G0` is refused (`owned`); the only copy of the functor owning `G0` is released *during an emission of
+    `G0`* (`disc C0` in the body of functor 2: `collect` → `dropHandle`, `size? G0` answers `dead`, the emission
+    goes on with the next slot); `G2` stays owned to the end -/
+def exOwnG : Prog :=
+  { owners := true,
+    bodies := [(2, [⟨"disc C0", .disc 0⟩, ⟨"size? G0", .sizeq 0⟩])],
+    top := [⟨"newG G0 I", .newG 0 (some .I)⟩, ⟨"newG G1 I", .newG 1 (some .I)⟩, ⟨"newG G2 I", .newG 2 (some .I)⟩,
+            ⟨"connfn C3 G1 fn:9", .connfn 3 1 (.fn 9) false⟩, ⟨"disc C3", .disc 3⟩,
+            ⟨"emit G1 1", .emit 1 1 .sum false⟩,
+            ⟨"connfn C0 G1 ownG:1:G0", .connfn 0 1 (.ownG 1 0) false⟩,
+            ⟨"connfn C4 G1 ownG:4:G2", .connfn 4 1 (.ownG 4 2) false⟩,
+            ⟨"connfn C1 G0 fn:2", .connfn 1 0 (.fn 2) false⟩,
+            ⟨"connfn C2 G0 fn:3", .connfn 2 0 (.fn 3) false⟩,
+            ⟨"delG G0", .delG 0⟩,
+            ⟨"emit G0 5", .emit 0 5 .sum false⟩,
+            ⟨"emit G0 7", .emit 0 7 .sum false⟩,
+            ⟨"size? G1", .sizeq 1⟩] }
+
 /-- the number of entries of the first list of the state -/
 def firstLen (s : LSt) : Option Nat := s.sigs.head?.map (·.2.cells.length)
 
